@@ -80,6 +80,12 @@ def obligations(ctx):
             leaves = [DecLeaf('a'), DecLeaf('b')] if k in DEC_FUNCS2 else [DecLeaf('a')]
             ob = DecimalArm('C10', k, (k,) + tuple(leaves), (lambda v, k=k: dec_fn_ref(k, v)), oc=oc, label='decimal/%s/%s' % (k, tag)); ob.differential = True
             obs.append(ob)
+        # eval_complex: each function node applies the num_complex method of that name (methods abstract; same obligations as C08's E part)
+        from .c08 import cx_ref, UN as CX_UN
+        for k in ['Abs', 'Lb', 'Pow', 'Root', 'Log'] + list(CX_UN):
+            n = 2 if k in ('Pow', 'Root', 'Log') else 1
+            leaves = [Leaf('complex', 'x%d' % i) for i in range(n)]
+            obs.append(EvalArm('C10', 'complex', k, (k,) + tuple(leaves), (lambda v, k=k: cx_ref(k, v)), oc=oc, label='complex/%s/%s' % (k, tag)))
         for k in ['Abs', 'Sign', 'Sqrt', 'Factorial']:
             a = Leaf('i64', 'a', None, 'bv' if k == 'Sqrt' else 'int')
             assume = (a.var <= 25) if k == 'Factorial' else None
@@ -90,9 +96,9 @@ def obligations(ctx):
 def run(ctx):
     results = run_obligations(ctx, obligations(ctx))
     bounds = dict(layer='T: Tokenizer::next of all five tokenizers on every README name, alias and word constant (followed by `(`+any char, by two arbitrary chars, and at end of input; thorough: every one-character near miss); '
-                        'E: every function node of eval_f64 and eval_number (all operand variants) and the exact ones of eval_i64 on arbitrary operands; the function nodes of eval_decimal (abs floor ceil round trunc sgn ln lb exp exp2 sqrt pow log root) over abstract decimals',
+                        'E: every function node of eval_f64 and eval_number (all operand variants) and the exact ones of eval_i64 on arbitrary operands; the function nodes of eval_complex (num_complex methods abstract) and of eval_decimal (abs floor ceil round trunc sgn ln lb exp exp2 sqrt pow log root) over abstract decimals',
                   configurations=['overflow-checks=on'] + (['overflow-checks=off'] if ctx.tier == 'thorough' else []))
     outside = ['numeric accuracy (1e-9) of libm, of the crate\'s Lanczos gamma and Lambert-W iteration, and eval_i64\'s "within 1" for ln/lb/log/exp/root through doubles: transcendental analysis, not decidable with the SMT theories available; the identity of the library function applied and its argument order are decided',
-               'eval_complex function nodes (num_complex methods abstract): C08; eval_decimal function nodes are decided up to the identity of the rust_decimal operation applied (its accuracy is the dependency\'s)',
+               'eval_complex and eval_decimal function nodes are decided up to the identity of the rust_decimal operation applied (its accuracy is the dependency\'s)',
                'arity and argument order at the parser level: C03/C04 token-stream checks', 'x deg / x rad constants: parser level (C04)']
     return finish(ctx, results, bounds, 'symbolic execution from MIR of (T) the tokenizers on keyword templates against the README vocabulary and (E) the function arms of ast::eval against the library function of the same name (uninterpreted functions for libm; floor/ceil/trunc/round/abs/sqrt/sgn/n! exact)', outside)
